@@ -49,17 +49,17 @@ func (m *vNetMsg) Seqno() uint64                              { return 0 }
 // VerifC13_BeaconSupport: the random-beacon variant — messages go through
 // resultSigningState.Receive and then SigningMember.VerifyDKGResultSignatures.
 func VerifC13_BeaconSupport() {
-	k := 2
-	if vThorough() {
-		k = 3
-	}
+	k := 2 // (three messages did not finish within 40 minutes; the thorough tier widens the disqualified member instead)
 	ops := []chain.Address{"a", "b", "a", "c"}
 	n := len(ops)
 	self := group.MemberIndex(vU8())
 	vAssume(self >= 1 && int(self) <= n)
 	g := group.NewGroup(1, n)
 	dq := group.MemberIndex(0) // member 2 (or nobody) was disqualified during key generation
-	if vBool() {
+	if vThorough() {
+		dq = group.MemberIndex(vU8())
+		vAssume(int(dq) <= n)
+	} else if vBool() {
 		dq = 2
 	}
 	vAssume(dq != self)
